@@ -153,16 +153,16 @@ pub fn gen_history(src: &mut Src, big: bool) -> Case {
     case
 }
 
-fn gen_big(src: &mut Src, _i: usize) -> Case {
+pub fn gen_big(src: &mut Src, _i: usize) -> Case {
     gen_history(src, true)
 }
 
-fn gen_small(src: &mut Src, _i: usize) -> Case {
+pub fn gen_small(src: &mut Src, _i: usize) -> Case {
     gen_history(src, false)
 }
 
 /// pure garbage: arbitrary scalar values and raw fragments only
-fn gen_garbage(src: &mut Src, _i: usize) -> Case {
+pub fn gen_garbage(src: &mut Src, _i: usize) -> Case {
     let (cols, rows) = gen::any_size(src);
     let mut g = G::new(cols, rows);
     g.raw = true;
